@@ -689,12 +689,27 @@ func runFlood(c FloodCase, r *pbt.R) {
 		var before runtime.MemStats
 		runtime.GC()
 		runtime.ReadMemStats(&before)
+		// the first epoch whose keys the target does not have yet
+		next := 2
+		if c.During {
+			next = 1
+		}
 		flood := func() {
 			for i := 0; i < c.N; i++ {
 				var d []byte
 				switch c.Kind {
 				case "future-epoch":
 					d = legacyRecord(23, 1+i%3, uint64(i), bytes.Repeat([]byte{0xee}, 900), 0) //nolint:gosec
+				case "future-epoch-hs":
+					// claims to be a handshake record of an epoch whose keys are not there yet
+					d = legacyRecord(22, next, uint64(i), bytes.Repeat([]byte{0xe1}, 48), 0) //nolint:gosec
+				case "future-epoch-ccs":
+					d = legacyRecord(20, next, uint64(i), bytes.Repeat([]byte{0x01}, 48), 0) //nolint:gosec
+				case "ccs-current-epoch":
+					// a well-formed change_cipher_spec claiming the current read epoch (1 once established)
+					d = legacyRecord(20, 1, uint64(1)<<40+uint64(i), []byte{0x01}, 0) //nolint:gosec
+				case "future-epoch-small":
+					d = legacyRecord(23, next, uint64(i), bytes.Repeat([]byte{0xe3}, 48), 0) //nolint:gosec
 				case "far-future-fragments":
 					hs := []byte{11, 0, 0x40, 0, byte((100 + i) >> 8), byte(100 + i), 0, 0, byte(i % 200), 0, 3, 0x84}
 					d = legacyRecord(22, 0, uint64(i), append(hs, bytes.Repeat([]byte{0xcc}, 900)...), 0) //nolint:gosec
@@ -727,18 +742,20 @@ func runFlood(c FloodCase, r *pbt.R) {
 			flood()
 		}
 		var after runtime.MemStats
+		p.Net.DropTap() // the harness's own copy of the flood must not count
 		runtime.GC()
 		runtime.GC()
 		runtime.ReadMemStats(&after)
 		growth := int64(after.HeapAlloc) - int64(before.HeapAlloc) //nolint:gosec
-		// documented limits: 2 MB reassembly + 100 queued records x 8 KiB, plus the tap itself (N x ~1 KiB) and slack
-		bound := int64(2_000_000 + 100*8192 + 16<<20 + c.N*2200)
+		// documented limits: 2 MB reassembly + 100 queued records x 8 KiB receive buffer, plus slack for
+		// the two connections' own state
+		bound := int64(2_000_000 + 100*8192 + 6<<20)
 		if growth > bound {
 			r.Failf("C08|memory-beyond-limits|"+c.Kind, "heap grew by %d bytes across a flood of %d %s datagrams (bound %d)", growth, c.N, c.Kind, bound)
 
 			return
 		}
-		harmlessFlood := c.Kind == "garbage" || c.Kind == "future-epoch"
+		harmlessFlood := c.Kind == "garbage" || strings.HasPrefix(c.Kind, "future-epoch") || c.Kind == "ccs-current-epoch"
 		if harmlessFlood && !strings.HasPrefix(c.Variant, "dual") {
 			if !(p.C.OK() && p.S.OK()) {
 				r.Failf("C08|stops-serving-after-flood|"+c.Kind, "handshake did not complete after a flood of %d %s datagrams: %v %v", c.N, c.Kind, p.C.Err(), p.S.Err())
@@ -764,9 +781,17 @@ func enumFlood(tier string, yield func(FloodCase) bool) {
 		n = 10000
 	}
 	for _, v := range []string{"v12", "v13"} {
-		for _, k := range []string{"future-epoch", "far-future-fragments", "big-fragments", "garbage"} {
+		for _, k := range []string{"future-epoch", "future-epoch-small", "future-epoch-hs", "future-epoch-ccs", "far-future-fragments", "big-fragments", "garbage"} {
 			for _, during := range []bool{true, false} {
 				if !yield(FloodCase{Variant: v, Kind: k, N: n, During: during}) {
+					return
+				}
+			}
+		}
+		// a single unauthenticated datagram
+		for _, k := range []string{"ccs-current-epoch", "future-epoch-ccs", "future-epoch-hs"} {
+			for _, during := range []bool{true, false} {
+				if !yield(FloodCase{Variant: v, Kind: k, N: 1, During: during}) {
 					return
 				}
 			}
